@@ -353,6 +353,11 @@ func configs(r *vk.Run) []sw.SysOpts {
 			cs[len(cs)-1].MaxInc = 3
 		}
 	}
+	// merge-write with a subscriber that stays while the publisher changes: what the merge buffer still
+	// holds of the first publisher must not surface under the second
+	add("gop0+merge-republish", lean, true, "rtmp.merge_write_size", 130)
+	cs[len(cs)-1].Prefix = []string{"J:rtmp", "P:vsh", "PubLeave", "PubArrive"}
+	cs[len(cs)-1].MaxInc = 3
 	// a consumer that joins in the gap between two publishers, the second with other tracks (audio only
 	// after audio + video, video only after audio)
 	gap := []string{"P:vsh", "P:key", "P:ash", "P:aac", "J:rtmp", "J:flv", "J:ts", "PubArrive", "PubLeave"}
